@@ -194,25 +194,25 @@ Qed.
 (* ------------------------------------------------------------------ code vs documented meaning *)
 
 Lemma seen_hops_agree k i :
-  k <> FBmp \/ in_legacy_as i = false -> seen_hops true k i = seen_hops false k i.
+  k = FRib \/ in_legacy_as i = false -> seen_hops true k i = seen_hops false k i.
 Proof.
   intros H. unfold seen_hops. destruct (in_attrs i) as [a|]; [|reflexivity].
-  destruct k; try reflexivity. destruct H as [H|H]; [congruence|]. rewrite H. reflexivity.
+  destruct k; try reflexivity; (destruct H as [H|H]; [congruence|]; rewrite H; reflexivity).
 Qed.
 
 Lemma eval_pred_agree k e i p :
-  k <> FBmp \/ in_legacy_as i = false -> eval_pred true k e i p = eval_pred false k e i p.
+  k = FRib \/ in_legacy_as i = false -> eval_pred true k e i p = eval_pred false k e i p.
 Proof. intros H. destruct p; cbn [eval_pred]; rewrite ?(seen_hops_agree k i H); reflexivity. Qed.
 
 Lemma eval_cond_agree k e i c :
-  k <> FBmp \/ in_legacy_as i = false -> eval_cond true k e i c = eval_cond false k e i c.
+  k = FRib \/ in_legacy_as i = false -> eval_cond true k e i c = eval_cond false k e i c.
 Proof.
   intros H. induction c as [| |p|c IH|a IHa b IHb|a IHa b IHb]; cbn [eval_cond];
     rewrite ?IH, ?IHa, ?IHb; try reflexivity. apply eval_pred_agree. exact H.
 Qed.
 
 Lemma exec_agree k i p : forall e,
-  k <> FBmp \/ in_legacy_as i = false -> exec true k e i p = exec false k e i p.
+  k = FRib \/ in_legacy_as i = false -> exec true k e i p = exec false k e i p.
 Proof.
   intros e H. revert e.
   induction p as [|o r IH|ty n r IH|c th IHth el IHel r IHr|b]; intros e; cbn [exec].
@@ -224,7 +224,7 @@ Proof.
 Qed.
 
 Lemma eval_meets_spec_partial k p i :
-  k <> FBmp \/ in_legacy_as i = false -> eval k p i = eval_spec k p i.
+  k = FRib \/ in_legacy_as i = false -> eval k p i = eval_spec k p i.
 Proof. intros H. unfold eval, eval_spec, eval_gen. rewrite (exec_agree k i p [] H). reflexivity. Qed.
 
 (* the witness: a peer without the 4-octet capability announces a path through
@@ -235,6 +235,15 @@ Definition legacy_witness_input : input :=
 Lemma eval_legacy_refuted :
   eval FBmp legacy_witness_prog legacy_witness_input = (true, []) /\
   eval_spec FBmp legacy_witness_prog legacy_witness_input = (false, []).
+Proof. split; vm_compute; reflexivity. Qed.
+
+(* the same at bgp-in: a session with a peer that did not send the 4-octet
+   capability (AS65002, ingress id 7) *)
+Definition bgp_legacy_witness_input : input :=
+  MkIn K_RM 0 (Some (MkAttrs (Some [(false, [65001; 65002])]) [] [] [])) 1 0 None 65002 7 true.
+Lemma eval_bgp_legacy_refuted :
+  eval FBgp legacy_witness_prog bgp_legacy_witness_input = (true, []) /\
+  eval_spec FBgp legacy_witness_prog bgp_legacy_witness_input = (false, []).
 Proof. split; vm_compute; reflexivity. Qed.
 
 (* ------------------------------------------------------------------ call sites *)
@@ -696,12 +705,12 @@ Proof.
 Qed.
 
 (* bgp-in: every UPDATE of a session is judged with the session's provenance *)
-Lemma bgp_view_fields pv u a :
-  in_peer_asn (bgp_view pv u a) = pv_asn pv /\ in_ingress (bgp_view pv u a) = pv_ingress pv.
+Lemma bgp_view_fields pv u a lg :
+  in_peer_asn (bgp_view pv u a lg) = pv_asn pv /\ in_ingress (bgp_view pv u a lg) = pv_ingress pv.
 Proof. split; reflexivity. Qed.
 
-Lemma bgp_peer_filter_uniform lb p pv u1 u2 a1 a2 :
-  prov_only p = true -> eval_gen lb FBgp p (bgp_view pv u1 a1) = eval_gen lb FBgp p (bgp_view pv u2 a2).
+Lemma bgp_peer_filter_uniform lb p pv u1 u2 a1 a2 l1 l2 :
+  prov_only p = true -> eval_gen lb FBgp p (bgp_view pv u1 a1 l1) = eval_gen lb FBgp p (bgp_view pv u2 a2 l2).
 Proof. intros Hp. apply eval_prov_only; [exact Hp|reflexivity]. Qed.
 
 (* rib-in-pre: the id on an output message is the one of the payload's provenance, for both context classes *)
